@@ -464,6 +464,21 @@ def make_namespace(sched):
                 f.state = 'done'
                 sched.yield_point('worker.done')
 
+        def map(self, fn, *iterables, timeout=None, chunksize=1):
+            # as the real executor: every call is submitted AT ONCE, the results come back lazily and in order; the
+            # remaining futures are cancelled when the result iterator is closed
+            fs = [self.submit(fn, *args) for args in zip(*iterables)]
+
+            def result_iterator():
+                try:
+                    fs.reverse()
+                    while fs:
+                        yield fs.pop().result()
+                finally:
+                    for f in fs:
+                        f.cancel()
+            return result_iterator()
+
         def shutdown(self, wait=True, cancel_futures=False):
             sched.yield_point('executor.shutdown')
             if self.pending_at_shutdown is None:
